@@ -1,7 +1,10 @@
 //! C05 ops: set similarity with a USER-SUPPLIED term similarity injected through the public
 //! `Similarity` trait (a table lookup keyed by `(id_a, id_b)` with dyadic values k/64).
 //!
-//!   setsim <slot> <t|s><salt> <comb> <idsA> <idsB>      `HpoSet::similarity`; line `SS <f32>`
+//!   setsim <slot> <spec> <comb> <idsA> <idsB>          `HpoSet::similarity`; line `SS <f32>`; spec = letter + salt:
+//!                                                        t/s k/64, n/m signed, u/v coarse, i/j NON-FINITE (+-inf, NaN
+//!                                                        entries; every NaN result is the token `f32:nan`); the second
+//!                                                        letter of each pair is the symmetric table
 //!   matsim <comb> <rows> <cols> <k,k,…>                  hand-built `Matrix::new`: `ROW …`/`COL …`
 //!                                                        (iterators), `RM`/`CM` (maxima), `MS <f32>`
 //!   cachesim <slot> <spec> <comb> <A:B> …                one `CachedSimilarity` for all queries: `CS <f32> …`
@@ -23,6 +26,10 @@ pub struct Table {
     signed: bool,
     /// coarse values 0, 0.25, …, 1.75: scores above 1 and exact 1.0 are frequent
     coarse: bool,
+    /// NON-FINITE scores: `k % 16`: 0 -> -inf, 15 -> +inf, 7 -> NaN, otherwise (k % 16) / 8
+    /// (specs `i` asymmetric, `j` symmetric). Sums of maxima become NaN (inf - inf) also without
+    /// NaN entries.
+    nonfinite: bool,
     salt: u64,
 }
 
@@ -35,6 +42,14 @@ impl Table {
         }
     }
     fn val(&self, a: u32, b: u32) -> f32 {
+        if self.nonfinite {
+            return match self.k(u64::from(a), u64::from(b)) % 16 {
+                0 => f32::NEG_INFINITY,
+                15 => f32::INFINITY,
+                7 => f32::from_bits(0x7fc0_0000),
+                k => k as f32 / 8.0,
+            };
+        }
         let k = self.k(u64::from(a), u64::from(b)) as f32;
         if self.coarse {
             return (self.k(u64::from(a), u64::from(b)) % 8) as f32 / 4.0;
@@ -46,6 +61,9 @@ impl Table {
         }
     }
     fn val64(&self, a: u32, b: u32) -> f64 {
+        if self.nonfinite {
+            return f64::from(self.val(a, b));
+        }
         let k = self.k(u64::from(a), u64::from(b)) as f64;
         if self.coarse {
             return (self.k(u64::from(a), u64::from(b)) % 8) as f64 / 4.0;
@@ -67,12 +85,14 @@ impl Similarity for Table {
 fn parse_spec(s: &str) -> Option<Table> {
     let salt = s.get(1..)?.parse::<u64>().ok()?;
     match s.as_bytes().first()? {
-        b't' => Some(Table { sym: false, signed: false, coarse: false, salt }),
-        b's' => Some(Table { sym: true, signed: false, coarse: false, salt }),
-        b'n' => Some(Table { sym: false, signed: true, coarse: false, salt }),
-        b'm' => Some(Table { sym: true, signed: true, coarse: false, salt }),
-        b'u' => Some(Table { sym: false, signed: false, coarse: true, salt }),
-        b'v' => Some(Table { sym: true, signed: false, coarse: true, salt }),
+        b't' => Some(Table { sym: false, signed: false, coarse: false, nonfinite: false, salt }),
+        b's' => Some(Table { sym: true, signed: false, coarse: false, nonfinite: false, salt }),
+        b'n' => Some(Table { sym: false, signed: true, coarse: false, nonfinite: false, salt }),
+        b'm' => Some(Table { sym: true, signed: true, coarse: false, nonfinite: false, salt }),
+        b'u' => Some(Table { sym: false, signed: false, coarse: true, nonfinite: false, salt }),
+        b'v' => Some(Table { sym: true, signed: false, coarse: true, nonfinite: false, salt }),
+        b'i' => Some(Table { sym: false, signed: false, coarse: false, nonfinite: true, salt }),
+        b'j' => Some(Table { sym: true, signed: false, coarse: false, nonfinite: true, salt }),
         _ => None,
     }
 }
@@ -142,6 +162,12 @@ fn close(x: f32, y: f64) -> bool {
     x.is_finite() && (f64::from(x) - y).abs() <= 1e-6 * y.abs().max(1.0)
 }
 
+/// agreement of two routes / argument orders: the same bits, or both NaN (sign and payload of a
+/// NaN are not pinned down by anything; both sides of the protocol print `f32:nan` for every NaN)
+fn same(x: f32, y: f32) -> bool {
+    x.to_bits() == y.to_bits() || (x.is_nan() && y.is_nan())
+}
+
 fn sorted_dedup(mut v: Vec<u32>) -> Vec<u32> {
     v.sort_unstable();
     v.dedup();
@@ -175,19 +201,29 @@ pub fn exec(it: &mut Interp, toks: &[&str], out: &mut Vec<String>) -> bool {
                 }
             }
             let s4 = comb.calculate(&Matrix::new(ia.len(), ib.len(), &v32));
-            if s2.to_bits() != s1.to_bits() || s3.to_bits() != s1.to_bits() || s4.to_bits() != s1.to_bits() {
+            if !same(s2, s1) || !same(s3, s1) || !same(s4, s1) {
                 fails.push(format!("routes differ: HpoSet {s1} GroupSimilarity {s2} cached {s3} hand-built matrix {s4}"));
             }
+            // the f64 recomputation with a tolerance is meaningful for finite tables only
             let want = naive(comb, ia.len(), ib.len(), &v64);
-            if !close(s1, want) {
+            if v32.iter().all(|x| x.is_finite()) && !close(s1, want) {
                 fails.push(format!("{cb} of {}x{} = {s1}, documented formula gives {want}", ia.len(), ib.len()));
             }
             if (ia.is_empty() || ib.is_empty()) && s1.to_bits() != 0f32.to_bits() {
                 fails.push(format!("empty set: {s1}"));
             }
             if tab.sym {
+                // Also for the non-finite symmetric table `j` (NaN entries included). The maxima
+                // `if a > b { a } else { b }` depend on the POSITION of a NaN in a row / column
+                // ([NaN, 0.25] -> 0.25, [0.25, NaN] -> NaN), but the matrix of (B, A) is the transpose of
+                // the matrix of (A, B) and both sets iterate in ascending id order, so every row of the
+                // one is a column of the other with the same element order: row maxima and column
+                // maxima are exchanged exactly; `+` and `f32::max` (which ignores a NaN operand on
+                // either side) are commutative up to the sign / payload of a NaN. E.g. table j0,
+                // A = {2}, B = {7, 8}: sim(2,7) = NaN, sim(2,8) = 0.25; funSimMax = 0.25 in both orders
+                // (0.25.max(NaN) resp. NaN.max(0.25)). Lean: C05_symm_any_arith.
                 let sw = sb.similarity(&sa, tab, comb);
-                if sw.to_bits() != s1.to_bits() {
+                if !same(sw, s1) {
                     fails.push(format!("symmetric similarity, swapped sets: {s1} vs {sw}"));
                 }
             }
@@ -295,7 +331,7 @@ pub fn exec(it: &mut Interp, toks: &[&str], out: &mut Vec<String>) -> bool {
                 let p = plain.calculate(&sa, &sb);
                 line.push(' ');
                 line.push_str(&f32bits(s));
-                if s.to_bits() != p.to_bits() {
+                if !same(s, p) {
                     fails.push(format!("query {n}: cached {s} vs bare {p}"));
                 }
             }
